@@ -166,7 +166,7 @@ def spec_of(name, d, argv_extra=(), yrel=None, links=None, path=None):
     return sp
 
 
-def pairs_scope(r, name, d, thorough, offset=0):
+def pairs_scope(r, name, d, thorough, offset=0, small=False):
     """(i) option / format on a container vs on each contained function."""
     out = []
     funcs_top = [e for e in d.get("declarations", []) if is_func_entry(e)]
@@ -176,7 +176,7 @@ def pairs_scope(r, name, d, thorough, offset=0):
         # rotate through the whole list from library to library (every setting meets several libraries in every run);
         # the wrapper-forcing options only matter where wrappers are optional (language c), so they are always tried there
         n_ = len(settings)
-        pick = [settings[(offset + j) % n_] for j in range(4)]
+        pick = [settings[(offset + j) % n_] for j in range(1 if small else 4)]
         if d.get("language") == "c":
             pick += [x for x in settings if x[1] in ("C_force_wrapper", "F_force_wrapper") and x not in pick]
         # options that only act on particular declaration forms are always tried where such a declaration exists
@@ -347,10 +347,16 @@ def main(rec):
     mixes = [x for x in libs if x[0].startswith("gmix")]
     singles = [x for x in libs if not x[0].startswith("gmix")]
     if not thorough:
+        allsingles = singles
         singles = [x for i, x in enumerate(singles) if i % 6 == common.seed() % 6]
+        # one library per declaration form that has options of its own is always kept (pointer results, strings)
+        for pat in (r"resptr", r"strres|cstrres", r"strrefout|cstrout"):
+            m_ = next((x for x in allsingles if re.search(pat, x[0]) and x not in singles), None)
+            if m_ is not None and not any(re.search(pat, x[0]) for x in singles):
+                singles.append(m_)
     for li, (name, d, meta) in enumerate(mixes + singles):
         prs = []
-        prs += pairs_scope(r, name, d, thorough, 4 * li) if (name.startswith("gmix") or thorough) else pairs_scope(r, name, d, False, 4 * li)[:2]
+        prs += pairs_scope(r, name, d, thorough, 4 * li) if (name.startswith("gmix") or thorough) else pairs_scope(r, name, d, False, 4 * li, small=True)
         prs += pairs_attrs(name, d)
         prs += pairs_block(r, name, d)
         for rel, a, b in prs:
